@@ -84,6 +84,19 @@ impl Report {
     /// `sig` identifies the kind of violation (used for known findings and for
     /// de-duplication); `what` is the human description; `replay` is self-contained
     pub fn violation(&mut self, sig: &str, what: String, replay: Value) {
+        // a panic whose location is a file of the harness itself (relative path `src/...`; the crate under
+        // test and its dependencies are compiled from absolute paths) is a bug of the harness, not a
+        // finding: the run is inconclusive
+        if sig.contains("panic@") {
+            let loc = what.rsplit(" at ").next().unwrap_or("");
+            if loc.starts_with("src/") {
+                if self.inconclusive.len() < 5 {
+                    self.inconclusive.push(format!("panic inside the harness ({}): {}", loc, &what[..what.len().min(300)]));
+                }
+                self.count("harness_panics");
+                return;
+            }
+        }
         let what = if what.len() > 3000 {
             let mut cut = 3000;
             while !what.is_char_boundary(cut) {
